@@ -267,3 +267,83 @@ Proof.
   f_equal; [apply (H 0%nat); cbn; lia|].
   apply IH; [now injection HL|]. intros i Hi. apply (H (S i)). cbn. lia.
 Qed.
+
+Lemma Forall2_nth_error {A} (R : A -> A -> Prop) l : forall l',
+  length l = length l' ->
+  (forall i x y, nth_error l i = Some x -> nth_error l' i = Some y -> R x y) -> Forall2 R l l'.
+Proof.
+  induction l as [|x r IH]; intros [|y r'] HL H; try discriminate; constructor.
+  - apply (H 0%nat); reflexivity.
+  - apply IH; [now injection HL|]. intros i. apply (H (S i)).
+Qed.
+
+(** * a list is determined, as a multiset, by its classes (sub-lists of one key) *)
+Lemma filter_split_first {A} (p : A -> bool) l : forall x t,
+  filter p l = x :: t -> exists l1 l2, l = l1 ++ x :: l2 /\ filter p l1 = [] /\ filter p l2 = t.
+Proof.
+  induction l as [|y r IH]; cbn [filter]; intros x t H; [discriminate|].
+  destruct (p y) eqn:E.
+  - inversion H; subst. exists [], r. repeat split.
+  - destruct (IH _ _ H) as (l1 & l2 & -> & H1 & H2). exists (y :: l1), l2. cbn [app filter].
+    rewrite E. repeat split; assumption.
+Qed.
+
+Lemma perm_by_classes {A K} (key : A -> K) (eqb : K -> K -> bool) :
+  (forall a b, eqb a b = true <-> a = b) ->
+  forall l l', (forall k, filter (fun x => eqb (key x) k) l = filter (fun x => eqb (key x) k) l') ->
+  Permutation l l'.
+Proof.
+  intros Heq. induction l as [|x r IH]; intros l' H.
+  - destruct l' as [|y r']; [constructor|]. specialize (H (key y)). cbn [filter] in H.
+    rewrite (proj2 (Heq _ _) eq_refl) in H. discriminate.
+  - pose proof (H (key x)) as Hx. cbn [filter] in Hx. rewrite (proj2 (Heq _ _) eq_refl) in Hx.
+    symmetry in Hx. destruct (filter_split_first _ _ _ _ Hx) as (l1 & l2 & -> & H1 & H2).
+    apply Permutation_cons_app. apply IH. intros k.
+    specialize (H k). cbn [filter] in H. rewrite !filter_app in *. cbn [filter] in H.
+    destruct (eqb (key x) k) eqn:E.
+    + apply Heq in E. subst k. rewrite H1. cbn [app]. now rewrite H2.
+    + exact H.
+Qed.
+
+(** * ForallOrdPairs / NoDup of an append *)
+Lemma FOP_app {A} (R : A -> A -> Prop) l1 l2 :
+  ForallOrdPairs R l1 -> ForallOrdPairs R l2 -> (forall a b, In a l1 -> In b l2 -> R a b) ->
+  ForallOrdPairs R (l1 ++ l2).
+Proof.
+  induction 1 as [|x r Hx _ IH]; intros H2 H12; cbn [app]; [exact H2|].
+  constructor.
+  - apply Forall_app. split; [exact Hx|]. rewrite Forall_forall. intros b Hb. apply H12; [now left|exact Hb].
+  - apply IH; [exact H2|]. intros a b Ha. apply H12. now right.
+Qed.
+
+Lemma NoDup_app_intro {A} (l1 l2 : list A) :
+  NoDup l1 -> NoDup l2 -> (forall a, In a l1 -> In a l2 -> False) -> NoDup (l1 ++ l2).
+Proof.
+  induction 1 as [|x r Hx _ IH]; intros H2 H12; cbn [app]; [exact H2|].
+  constructor.
+  - intros Hin. apply in_app_or in Hin as [Hin|Hin]; [now apply Hx|]. apply (H12 x); [now left|exact Hin].
+  - apply IH; [exact H2|]. intros a Ha. apply H12. now right.
+Qed.
+
+Lemma FOP_map {A B} (f : A -> B) (R : B -> B -> Prop) l :
+  ForallOrdPairs (fun a b => R (f a) (f b)) l -> ForallOrdPairs R (map f l).
+Proof.
+  induction 1 as [|x r Hx _ IH]; cbn [map]; constructor; [|exact IH].
+  rewrite Forall_forall in *. intros y Hy. apply in_map_iff in Hy as (z & <- & Hz). now apply Hx.
+Qed.
+
+Lemma FOP_all {A} (R : A -> A -> Prop) l : (forall a b, R a b) -> ForallOrdPairs R l.
+Proof. intros H. induction l; constructor; [|assumption]. rewrite Forall_forall. intros; apply H. Qed.
+
+Lemma SSorted_app_inv {A} (R : A -> A -> Prop) l1 l2 :
+  StronglySorted R (l1 ++ l2) ->
+  StronglySorted R l1 /\ StronglySorted R l2 /\ (forall a b, In a l1 -> In b l2 -> R a b).
+Proof.
+  induction l1 as [|x l1 IH]; cbn [app]; intros H.
+  - repeat split; [constructor|exact H|intros a b []].
+  - inversion H as [|? ? Hs Hf]; subst. destruct (IH Hs) as (H1 & H2 & H3).
+    repeat split; [|exact H2|].
+    + constructor; [exact H1|]. rewrite Forall_forall in *. intros z Hz. apply Hf, in_or_app. now left.
+    + intros a b [->|Ha] Hb; [|now apply H3].
+      rewrite Forall_forall in Hf. apply Hf, in_or_app. now right.
+Qed.
